@@ -238,9 +238,20 @@ Fixpoint value_eqb (a b : value) : bool :=
   | _, _ => false
   end.
 
+(* str::contains *)
+Fixpoint starts_b (p s : list Z) : bool :=
+  match p, s with
+  | [], _ => true
+  | a :: p, b :: s => (a =? b) && starts_b p s
+  | _ :: _, [] => false
+  end.
+Fixpoint is_substr (p s : list Z) : bool :=
+  starts_b p s || match s with [] => false | _ :: r => is_substr p r end.
+
 Definition contains (container item : value) : outcome bool :=
   match container with
   | VUndef | VSilent => Ok false
+  | VStr _ s => Ok (is_substr (show item) s)      (* a string contains the text the needle prints as *)
   | VList l => Ok (existsb (fun x => value_eqb x item) l)
   | VMap kvs => Ok (match map_get item kvs with Some _ => true | None => false end)      (* a key of the map *)
   | _ => Err E_InvalidOperation
